@@ -199,6 +199,13 @@ func (s *Subscription) Loaded(resourceSub *rescache.ResourceSubscription, err er
 			return
 		}
 
+		// A subscription is loaded once. When two queries that normalize to
+		// the same query are requested at the same time, the cache may
+		// announce the shared resource for both responses.
+		if s.resourceSub != nil {
+			return
+		}
+
 		s.resourceSub = resourceSub
 		s.typ = resourceSub.GetResourceType()
 		s.state = stateLoaded
